@@ -2,86 +2,424 @@
 
 package rueidisprob
 
+// C35 — Bloom filters never report a false negative.
+//
+// Bounded exhaustive enumeration of operation histories of the Redis backed Bloom filter (bloomfilter.go) over a grid of
+// (expectedNumberOfItems, falsePositiveRate) configurations. The filter runs against the command level fake client on
+// the fake server; the real script text sent by the add-on is executed by the mini Lua interpreter.
+
 import (
 	"context"
+	"encoding/json"
 	"fmt"
+	"strings"
 	"testing"
-	"time"
 
 	"github.com/redis/rueidis"
 	"github.com/redis/rueidis/vshim/simredis"
 	"github.com/redis/rueidis/vshim/vrun"
 )
 
-func TestVerif_C35(t *testing.T) {
-	vrun.Main(t, "C35", func(r *vrun.Run) {
-		ctx := context.Background()
-		clock := int64(1000000)
-		srv := simredis.New()
-		srv.EnableLua()
-		srv.NowMs = func() int64 { return clock }
-		cl := rueidis.NewVerifSimClient(srv, rueidis.ClientOption{DisableCache: true})
-		for _, ro := range []bool{false, true} {
-			bf, err := NewBloomFilter(cl, fmt.Sprintf("bf%v", ro), 10, 0.001, WithEnableReadOperation(ro))
-			r.Note(fmt.Sprintf("new %v", err))
-			r.Note(fmt.Sprintf("add %v", bf.Add(ctx, "a")))
-			r.Note(fmt.Sprintf("addmulti %v", bf.AddMulti(ctx, []string{"a", "b"})))
-			e, err := bf.Exists(ctx, "a")
-			r.Note(fmt.Sprintf("exists a %v %v", e, err))
-			em, err := bf.ExistsMulti(ctx, []string{"c", "a", "b"})
-			r.Note(fmt.Sprintf("existsmulti %v %v", em, err))
-			n, err := bf.Count(ctx)
-			r.Note(fmt.Sprintf("count %v %v", n, err))
-			r.Note(fmt.Sprintf("reset %v", bf.Reset(ctx)))
-			e, err = bf.Exists(ctx, "a")
-			r.Note(fmt.Sprintf("exists a %v %v", e, err))
-			n, err = bf.Count(ctx)
-			r.Note(fmt.Sprintf("count %v %v", n, err))
-			r.Note(fmt.Sprintf("delete %v", bf.Delete(ctx)))
-			e, err = bf.Exists(ctx, "a")
-			r.Note(fmt.Sprintf("exists a %v %v", e, err))
-		}
-		cf, err := NewCountingBloomFilter(cl, "cbf", 10, 0.001)
-		r.Note(fmt.Sprintf("new %v", err))
-		r.Note(fmt.Sprintf("add %v", cf.Add(ctx, "a")))
-		r.Note(fmt.Sprintf("addmulti %v", cf.AddMulti(ctx, []string{"a", "b"})))
-		em, err := cf.ExistsMulti(ctx, []string{"c", "a", "b"})
-		r.Note(fmt.Sprintf("existsmulti %v %v", em, err))
-		mc, err := cf.ItemMinCountMulti(ctx, []string{"c", "a", "b"})
-		r.Note(fmt.Sprintf("mincount %v %v", mc, err))
-		r.Note(fmt.Sprintf("remove c %v", cf.Remove(ctx, "c")))
-		r.Note(fmt.Sprintf("removemulti a c b %v", cf.RemoveMulti(ctx, []string{"a", "c", "b"})))
-		mc, err = cf.ItemMinCountMulti(ctx, []string{"c", "a", "b"})
-		r.Note(fmt.Sprintf("mincount %v %v", mc, err))
-		n, err := cf.Count(ctx)
-		r.Note(fmt.Sprintf("count %v %v", n, err))
-		r.Note(fmt.Sprintf("hgetall %+v", srv.Do("HGETALL", "{cbf}:cbf")))
-		r.Note(fmt.Sprintf("delete %v", cf.Delete(ctx)))
+const (
+	c35Add = iota
+	c35AddMulti
+	c35Exists
+	c35ExistsMulti
+	c35Count
+	c35Reset
+	c35Delete
+)
 
-		for _, ro := range []bool{false, true} {
-			sf, err := NewSlidingBloomFilter(cl, fmt.Sprintf("sbf%v", ro), 10, 0.001, time.Second, WithReadOnlyExists(ro))
-			r.Note(fmt.Sprintf("new %v", err))
-			r.Note(fmt.Sprintf("add %v", sf.Add(ctx, "a")))
-			clock += 499
-			e, err := sf.Exists(ctx, "a")
-			r.Note(fmt.Sprintf("exists a %v %v", e, err))
-			clock += 1
-			e, err = sf.Exists(ctx, "a")
-			r.Note(fmt.Sprintf("exists a %v %v", e, err))
-			clock += 500
-			e, err = sf.Exists(ctx, "a")
-			r.Note(fmt.Sprintf("exists a %v %v", e, err))
-			n, err := sf.Count(ctx)
-			r.Note(fmt.Sprintf("count %v %v", n, err))
-			r.Note(fmt.Sprintf("reset %v", sf.Reset(ctx)))
-			r.Note(fmt.Sprintf("delete %v", sf.Delete(ctx)))
-			r.Note(fmt.Sprintf("add %v", sf.Add(ctx, "a")))
-			r.Note(fmt.Sprintf("add %v", sf.Add(ctx, "a")))
+type c35op struct {
+	Kind int
+	Keys []string
+}
+
+func (o c35op) String() string {
+	n := []string{"Add", "AddMulti", "Exists", "ExistsMulti", "Count", "Reset", "Delete"}[o.Kind]
+	if len(o.Keys) > 0 {
+		return n + "(" + strings.Join(o.Keys, ",") + ")"
+	}
+	return n
+}
+
+// the operation alphabet; histories are sequences of indexes into it
+var c35alphabet = []c35op{
+	{c35Add, []string{"a"}},
+	{c35Add, []string{"b"}},
+	{c35Add, []string{"c"}},
+	{c35AddMulti, []string{"a", "b"}},
+	{c35AddMulti, []string{"b", "c"}},
+	{c35Exists, []string{"a"}},
+	{c35Exists, []string{"b"}},
+	{c35Exists, []string{"c"}},
+	{c35ExistsMulti, []string{"b", "a", "c"}},
+	{c35Count, nil},
+	{c35Reset, nil},
+	{c35Delete, nil},
+}
+
+type c35cfg struct {
+	N    uint    `json:"n"`
+	P    float64 `json:"p"`
+	RO   bool    `json:"readonly_exists"`
+	Name string  `json:"name"`
+}
+
+func (c c35cfg) String() string {
+	return fmt.Sprintf("n=%d p=%v ro=%v name=%q", c.N, c.P, c.RO, c.Name)
+}
+
+type c35payload struct {
+	Cfg c35cfg `json:"cfg"`
+	Ops []int  `json:"ops"`
+}
+
+// c35world is one fake server + client, reused for all histories of a configuration (wiped between histories; the
+// server side script cache is flushed too, so that every history starts with the EVALSHA -> NOSCRIPT -> EVAL path).
+type c35world struct {
+	srv *simredis.Server
+	cl  *rueidis.VerifSimClient
+}
+
+func c35newWorld() *c35world {
+	srv := simredis.New()
+	srv.EnableLuaMaxSteps(50000)
+	return &c35world{srv: srv, cl: rueidis.NewVerifSimClient(srv, rueidis.ClientOption{DisableCache: true})}
+}
+
+func (w *c35world) wipe() {
+	w.srv.Do("FLUSHALL")
+	w.srv.ScriptFlush()
+	w.srv.Log = nil
+	w.cl.Calls = nil
+	w.cl.Sess.Executed, w.cl.Sess.Received = nil, nil
+}
+
+func c35hist(ops []int) string {
+	var sb strings.Builder
+	for i, o := range ops {
+		if i > 0 {
+			sb.WriteByte(' ')
 		}
-		for _, c := range cl.Calls {
-			if len(c[0]) > 0 && c[0][0] == 'E' {
-				r.Note(fmt.Sprintf("%s %.20q... %v", c[0], c[1], c[2:]))
+		sb.WriteString(c35alphabet[o].String())
+	}
+	return sb.String()
+}
+
+func c35kclass(k uint) string {
+	if k == 0 {
+		return "hashIterations=0"
+	}
+	return "hashIterations>0"
+}
+
+// c35run executes one history on a fresh filter and checks it against the reference model. It returns whether some
+// obligation of the property was actually exercised by an operation of the history (non-trivial case).
+func c35run(r *vrun.Run, w *c35world, cfg c35cfg, ops []int, outcomes bool) (nontrivial bool) {
+	ctx := context.Background()
+	w.wipe()
+	payload := c35payload{Cfg: cfg, Ops: append([]int{}, ops...)}
+	var bf BloomFilter
+	var err error
+	if p, site := vrun.Catch(func() {
+		if cfg.RO {
+			bf, err = NewBloomFilter(w.cl, cfg.Name, cfg.N, cfg.P, WithEnableReadOperation(true))
+		} else {
+			bf, err = NewBloomFilter(w.cl, cfg.Name, cfg.N, cfg.P)
+		}
+	}); p != nil {
+		r.Violate("panic in NewBloomFilter at "+site, fmt.Sprintf("%v: panic %v", cfg, p), payload)
+		return
+	}
+	if err != nil {
+		return
+	}
+	k := bf.(*bloomFilter).hashIterations
+	kc := c35kclass(k)
+	out := func(s string) {
+		if outcomes {
+			r.Outcome(s)
+		}
+	}
+
+	// ---- reference model: the set of items added since the last Reset/Delete, and the last observed count
+	present := map[string]bool{}
+	lastCount := uint64(0)
+	haveCount := false
+	fail := func(sig, format string, a ...any) {
+		r.Violate(sig, fmt.Sprintf("config %v (size=%d bits, hashIterations=%d), history [%s]: ", cfg, bf.(*bloomFilter).size, k, c35hist(ops))+fmt.Sprintf(format, a...), payload)
+	}
+	// checkExists compares an ExistsMulti style answer with the model: one answer per key, in order; added items present
+	checkExists := func(what string, keys []string, got []bool) bool {
+		if len(got) != len(keys) {
+			fail(what+" returns a result of the wrong length ("+kc+")", "%s(%v) = %v: want one answer per input key", what, keys, got)
+			return false
+		}
+		for i, key := range keys {
+			if present[key] {
+				nontrivial = true
+				if !got[i] {
+					fail("false negative: "+what+" reports an added item absent ("+kc+")", "%s(%v) = %v, but %q (position %d) was added successfully and no Reset/Delete followed", what, keys, got, key, i)
+					return false
+				}
 			}
 		}
+		return true
+	}
+	probeCount := func(after string, mayDecrease bool) bool {
+		var n uint64
+		var err error
+		if p, site := vrun.Catch(func() { n, err = bf.Count(ctx) }); p != nil {
+			fail("panic in Count at "+site, "panic %v", p)
+			return false
+		}
+		if err != nil {
+			out("probe Count: error")
+			return true
+		}
+		if haveCount && n < lastCount && !mayDecrease {
+			fail("Count decreases without Reset/Delete ("+kc+")", "Count went from %d to %d across %s", lastCount, n, after)
+			return false
+		}
+		lastCount, haveCount = n, true
+		return true
+	}
+
+	for step, oi := range ops {
+		op := c35alphabet[oi]
+		var opErr error
+		var bs []bool
+		var b bool
+		var n uint64
+		p, site := vrun.Catch(func() {
+			switch op.Kind {
+			case c35Add:
+				opErr = bf.Add(ctx, op.Keys[0])
+			case c35AddMulti:
+				opErr = bf.AddMulti(ctx, op.Keys)
+			case c35Exists:
+				b, opErr = bf.Exists(ctx, op.Keys[0])
+			case c35ExistsMulti:
+				bs, opErr = bf.ExistsMulti(ctx, op.Keys)
+			case c35Count:
+				n, opErr = bf.Count(ctx)
+			case c35Reset:
+				opErr = bf.Reset(ctx)
+			case c35Delete:
+				opErr = bf.Delete(ctx)
+			}
+		})
+		name := []string{"Add", "AddMulti", "Exists", "ExistsMulti", "Count", "Reset", "Delete"}[op.Kind]
+		if p != nil {
+			fail("panic in "+name+" at "+site, "step %d %v: panic %v", step, op, p)
+			return
+		}
+		if opErr != nil {
+			out(name + ": error")
+			if r.WantSample() {
+				r.Sample(map[string]any{"cfg": cfg.String(), "history": c35hist(ops), "step": step, "error": opErr.Error()})
+			}
+		}
+		mayDecrease := false
+		switch op.Kind {
+		case c35Add, c35AddMulti:
+			if opErr == nil {
+				for _, key := range op.Keys {
+					present[key] = true
+				}
+				out(name + ": ok")
+			}
+		case c35Exists:
+			if opErr == nil {
+				out(fmt.Sprintf("Exists: %v (added=%v)", b, present[op.Keys[0]]))
+				if !checkExists("Exists", op.Keys, []bool{b}) {
+					return
+				}
+			} else if present[op.Keys[0]] {
+				nontrivial = true
+			}
+		case c35ExistsMulti:
+			if opErr == nil {
+				out("ExistsMulti: ok")
+				if !checkExists("ExistsMulti", op.Keys, bs) {
+					return
+				}
+			}
+		case c35Count:
+			if opErr == nil {
+				out("Count: ok")
+				if haveCount && n < lastCount {
+					fail("Count decreases without Reset/Delete ("+kc+")", "Count() = %d after the probe saw %d", n, lastCount)
+					return
+				}
+			}
+		case c35Reset, c35Delete:
+			// whatever the call reports, the obligations end here (weaker reading)
+			present = map[string]bool{}
+			mayDecrease = true
+			if opErr == nil {
+				out(name + ": ok")
+			}
+		}
+		if !probeCount(op.String(), mayDecrease) {
+			return
+		}
+	}
+
+	// ---- epilogue (pure reads, so they do not disturb the history): every item individually and all at once in a
+	// non-sorted order; the multi answer must be the single answers in input order.
+	order := []string{"c", "a", "b"}
+	single := make([]bool, len(order))
+	okSingles := true
+	for i, key := range order {
+		var b bool
+		var err error
+		if p, site := vrun.Catch(func() { b, err = bf.Exists(ctx, key) }); p != nil {
+			fail("panic in Exists at "+site, "epilogue Exists(%q): panic %v", key, p)
+			return
+		}
+		if err != nil {
+			okSingles = false
+			out("epilogue Exists: error")
+			continue
+		}
+		single[i] = b
+		if present[key] {
+			if !b {
+				fail("false negative: Exists reports an added item absent ("+kc+")", "after the history Exists(%q) = false, but %q was added successfully and no Reset/Delete followed", key, key)
+				return
+			}
+			out("epilogue Exists: added item present")
+		} else if b {
+			out("epilogue Exists: false positive")
+		} else {
+			out("epilogue Exists: absent")
+		}
+	}
+	var multi []bool
+	if p, site := vrun.Catch(func() { multi, err = bf.ExistsMulti(ctx, order) }); p != nil {
+		fail("panic in ExistsMulti at "+site, "epilogue ExistsMulti(%v): panic %v", order, p)
+		return
+	}
+	if err != nil {
+		out("epilogue ExistsMulti: error")
+		return
+	}
+	if !checkExists("ExistsMulti", order, multi) {
+		return
+	}
+	if okSingles {
+		for i := range order {
+			if multi[i] != single[i] {
+				fail("ExistsMulti answers are not in input order ("+kc+")", "ExistsMulti(%v) = %v but the single Exists answers are %v", order, multi, single)
+				return
+			}
+		}
+	}
+	return
+}
+
+func c35grid() (ns []uint, ps []float64) {
+	return []uint{1, 2, 3, 10, 1000, 1000000}, []float64{1e-9, 1e-3, 0.5, 0.9, 0.99, 0.999999, 1 - 1.0/(1<<53)}
+}
+
+func TestVerif_C35(t *testing.T) {
+	vrun.Main(t, "C35", func(r *vrun.Run) {
+		r.Rule = "for every (n,p) of the grid accepted by NewBloomFilter x {default exists script, name 'bf'; read-only exists script, name 'k{x}:c'}: " +
+			"every history of exactly maxLen operations over the 12-operation alphabet (all shorter histories are its prefixes and are checked step by step), " +
+			"followed by a read-only epilogue Exists(c),Exists(a),Exists(b),ExistsMulti([c,a,b]); a Count probe follows every step. " +
+			"State = (configuration, history). Non-trivial = a query inside the history hits an item that the model says must be present."
+		r.Assume("the mini Lua interpreter and the fake server execute EVAL/EVALSHA(_RO), BITFIELD(_RO) GET/SET u1, INCRBY, SET, DEL, GET like Redis 7 (Lua true -> integer 1, false -> null)")
+		r.Assume("a failed Add/AddMulti creates no obligation; Reset/Delete end all obligations even when they report an error (weaker reading)")
+		r.Assume("'Count never decreases' is checked on the values returned by Count (probed after every step and inside histories)")
+		if raw, ok := r.ReplayPayload(); ok {
+			var p c35payload
+			if err := json.Unmarshal(raw, &p); err != nil {
+				panic(err)
+			}
+			c35run(r, c35newWorld(), p.Cfg, p.Ops, false)
+			return
+		}
+		ns, ps := c35grid()
+		maxLen := vrun.Pick(r, 3, 4)
+		r.Bounds["alphabet"] = len(c35alphabet)
+		r.Bounds["max_history_length"] = maxLen
+		r.Bounds["grid_n"] = fmt.Sprint(ns)
+		r.Bounds["grid_p"] = fmt.Sprint(ps)
+		// constructor boundary cases outside the grid (recorded only)
+		for _, c := range []c35cfg{{0, 0.5, false, "bf"}, {10, 0, false, "bf"}, {10, 1, false, "bf"}, {10, 1.5, false, "bf"}, {10, -1, false, "bf"}, {10, 0.5, false, ""}, {1 << 40, 1e-9, false, "bf"}} {
+			_, err := NewBloomFilter(nil, c.Name, c.N, c.P)
+			r.Note(fmt.Sprintf("constructor boundary: %v -> err=%v", c, err))
+		}
+		item := 0
+		var rejected, zeroK, accepted []string
+		for _, n := range ns {
+			for _, p := range ps {
+				for variant := 0; variant < 2; variant++ {
+					cfg := c35cfg{N: n, P: p, RO: variant == 1, Name: []string{"bf", "k{x}:c"}[variant]}
+					item++
+					if !r.Mine(item) {
+						continue
+					}
+					bf, err := NewBloomFilter(nil, cfg.Name, cfg.N, cfg.P)
+					if err != nil {
+						if variant == 0 {
+							rejected = append(rejected, fmt.Sprintf("(n=%d,p=%v): %v", n, p, err))
+						}
+						r.Outcome("constructor: rejected")
+						continue
+					}
+					f := bf.(*bloomFilter)
+					if variant == 0 {
+						accepted = append(accepted, fmt.Sprintf("(n=%d,p=%v): size=%d k=%d", n, p, f.size, f.hashIterations))
+						if f.hashIterations == 0 {
+							zeroK = append(zeroK, fmt.Sprintf("(n=%d,p=%v)", n, p))
+						}
+					}
+					r.Outcome("constructor: accepted, " + c35kclass(f.hashIterations))
+					// cost of one Add on the fake server ~ bytes copied per BITFIELD SET x hash functions: shorten histories for huge bitmaps
+					depth := maxLen
+					cost := uint64(f.size/8+1) * uint64(f.hashIterations)
+					switch {
+					case cost > 64<<20:
+						depth = maxLen - 2
+					case cost > 1<<20:
+						depth = maxLen - 1
+					}
+					r.Bounds[fmt.Sprintf("history_length[n=%d,p=%v]", n, p)] = depth
+					w := c35newWorld()
+					ops := make([]int, depth)
+					var rec func(i int) bool
+					rec = func(i int) bool {
+						if i == depth {
+							if r.TimeUp() {
+								return false
+							}
+							r.Evaluations++
+							h := c35hist(ops)
+							r.StateStr(cfg.String(), h)
+							if c35run(r, w, cfg, ops, true) {
+								r.NonTrivialStr(cfg.String(), h)
+							}
+							return true
+						}
+						for o := range c35alphabet {
+							ops[i] = o
+							if !rec(i + 1) {
+								return false
+							}
+						}
+						return true
+					}
+					if !rec(0) {
+						return
+					}
+				}
+			}
+		}
+		r.Note("accepted grid configurations: " + strings.Join(accepted, "; "))
+		r.Note("rejected grid configurations: " + strings.Join(rejected, "; "))
+		r.Note("accepted with ZERO hash functions: " + strings.Join(zeroK, "; "))
 	})
 }
